@@ -64,10 +64,11 @@ XStep(st, e, t) ==
                        ELSE IF e.result # StateName(OnHeartbeat(e.fed[1])) /\ OnHeartbeat(e.fed[1]) \in StateCodes
                               THEN Bad(st, "wait_for_heartbeat did not return the state of the next heartbeat")
                             ELSE Finish(st, e, new, <<>>)
-                ELSE IF \E i \in 1..Len(e.fed) : e.fed[i] % 128 = 0
+                \* a boot-up message counts when it arrives before the caller's deadline
+                ELSE IF \E i \in 1..Len(e.fed) : e.fed[i] % 128 = 0 /\ \A j \in 1..i : e.late[j] = 0
                        THEN IF e.result # "ok" THEN Bad(st, "wait_for_bootup did not return on the boot-up message")
                             ELSE Finish(st, e, new, <<>>)
-                       ELSE IF e.result # "NmtError" THEN Bad(st, "wait_for_bootup without boot-up did not fail with NmtError")
+                       ELSE IF e.result # "NmtError" THEN Bad(st, "wait_for_bootup without boot-up before the deadline did not fail with NmtError")
                             ELSE Finish(st, e, new, <<>>)
       [] OTHER -> Bad(st, "unknown event")
 
